@@ -75,21 +75,28 @@ theorem d16_step (n : Nat) (s : State Toy.Obj) (h : D16Inv n s) :
   obtain ⟨hcur, hlen, hall⟩ := h
   have hlt : ∀ kf ∈ s.fdtReceivers, kf.1 < n := fun kf hkf => (hall kf hkf).1
   have hnone := alookup_none_of_lt n s.fdtReceivers hlt
-  have hentry : fdtEntry Toy.iface s n =
+  have hentry : fdtEntry Toy.iface s n (d16Pkt n) =
       ({ s with fdtReceivers := s.fdtReceivers ++ [(n, FdtRecv.new Toy.iface n s.cfg.expCheck)] },
-       FdtRecv.new Toy.iface n s.cfg.expCheck) := by
+       (FdtRecv.new Toy.iface n s.cfg.expCheck).noteFti (d16Pkt n).fti) := by
     unfold fdtEntry
     rw [hnone]
     simp only []
     rw [ainsert_append_of_lt n _ _ hlt]
-  have hpush := pushFdtObj_receiving Toy.iface s (d16Pkt n) 0 .err n rfl
+  have hdrop : dropConflict s (d16Pkt n) = s := by
+    unfold dropConflict
+    simp only [d16Pkt]
+    rw [hnone]
+  have hpush := pushFdtObjP_receiving Toy.iface s (d16Pkt n) 0 .err n rfl
     (by rw [hcur]; simp) (by rw [hentry]; rfl) (by rw [hentry]; rfl)
   rw [hentry] at hpush
   simp only [] at hpush
   rw [ainsert_replace_last n _ _ _ hlt] at hpush
   refine ⟨{ s with fdtReceivers := s.fdtReceivers ++
-    [(n, (FdtRecv.new Toy.iface n s.cfg.expCheck).push Toy.iface (d16Pkt n) 0 .err)] }, ?_, ?_⟩
+    [(n, ((FdtRecv.new Toy.iface n s.cfg.expCheck).noteFti (d16Pkt n).fti).push Toy.iface (d16Pkt n) 0 .err)] }, ?_, ?_⟩
   · simp only [step, pushData, push]
+    unfold pushFdtObj
+    rw [show (if (d16Pkt n).closeSession = true then ({ s with closedImminent := true } : State Toy.Obj) else s) = s from rfl,
+      hdrop]
     exact hpush
   · refine ⟨hcur, by simp [hlen], ?_⟩
     intro kf hkf
